@@ -336,6 +336,14 @@ fn cont_props(prop: &str, tier: &str, seed: u64, threads: usize, out: &str) {
                 gen_cont::serde_case(all[i % 4], &format!("r{i}"), &g)
             });
             extra.insert("random.graphs".into(), format!("{nr}"));
+            exec::new_section();
+            let nh = if quick { 400 } else { 8000 };
+            spread(&mut ctxs, nh, |i| {
+                let mut rng = Rng::new(seed.wrapping_mul(71).wrapping_add(i as u64));
+                let g = gen_search::random_graph(&mut rng, if i % 5 == 0 { 12 } else { 4 });
+                gen_cont::serde_history_case(all[i % 4], &format!("h{i}"), &g, &mut rng)
+            });
+            extra.insert("histories".into(), format!("{nh} graphs serialised after members were removed and inserted again"));
         }
         "C13" => {
             // seed documents: small graphs (self-loops, parallel edges) ; all single structural mutations
